@@ -123,6 +123,8 @@ pub enum After {
     Max(usize),
     /// k × next(), then `threshold(t2)` on the SAME scanner, then next() to exhaustion
     Rethreshold(usize, f32),
+    /// `next^k . block_size(b2) . next*` on one scanner (hits after the change go to `post`)
+    Reblock(usize, usize),
     /// k × next(), then the best remaining hit asked through the ITERATOR interface: `scanner.by_ref().max()`
     /// (`Iterator::max` on `&mut Scanner`, which ranks hits by `Ord for Hit` and not by `Scanner::max`)
     MaxByRef(usize),
@@ -193,6 +195,26 @@ pub fn run_scanner(cfg: &Config, after: &After) -> Result<RunOut, String> {
                         }
                     }
                     sc.threshold(*t2);
+                    for _ in 0..cfg.seq.len() + 3 {
+                        out.calls += 1;
+                        match sc.next() {
+                            Some(h) => out.post.push((h.position(), h.score())),
+                            None => break,
+                        }
+                    }
+                }
+                After::Reblock(k, b2) => {
+                    for _ in 0..*k {
+                        out.calls += 1;
+                        match sc.next() {
+                            Some(h) => out.hits.push((h.position(), h.score())),
+                            None => {
+                                out.pre_exhausted = true;
+                                break;
+                            }
+                        }
+                    }
+                    sc.block_size(*b2);
                     for _ in 0..cfg.seq.len() + 3 {
                         out.calls += 1;
                         match sc.next() {
@@ -823,6 +845,77 @@ fn sweep(mode: Mode, ctx: &mut Ctx, rep: &mut Report) {
             }
         }
     }
+    // ---- block size changed in the middle of a scan (C02 only) -------------------------------------
+    if mode == Mode::C02 && ctx.wants("reblock") {
+        sink.rep.space(
+            "reblock",
+            "histories next^k . block_size(b2) . next* on ONE scanner built with block size b1: lengths {33,70,100,200} x 2 contents x matrices (M in 1..=3, 12 from the menu x wildcard {-inf, row mean}) x (b1, b2) ordered pairs of {1,2,3,5,256} x <= 3 attainable thresholds x k in 0..=6 x 3 dispatcher arms; \
+             oracle: the hits before and after the change together are exactly the positions meeting the threshold, each once",
+        );
+        let mats: Vec<(usize, u64)> = vec![(1, 0), (1, 3), (1, 6), (2, 1), (2, 14), (2, 55), (3, 9), (3, 100), (3, 511), (2, 62), (1, 5), (3, 300)];
+        for &l in &[33usize, 70, 100, 200] {
+            for pat in [0usize, 2] {
+                let seq = content(l, pat);
+                for &(m, mi) in &mats {
+                    for wild in [0usize, 2] {
+                        let idx = base;
+                        base += 1;
+                        if !ctx.mine(idx) {
+                            continue;
+                        }
+                        let matrix = matrix_from_digits(&model::nth_word(mi, m, nrows), wild);
+                        let ts = threshold_menu(&matrix, &seq, 3);
+                        let probe = Config { seq: seq.clone(), matrix: matrix.clone(), threshold: 0.0, block: 1, arm: Forced::Generic, origin: String::new(), pre_wrap: None, exact: false, spare: 0 };
+                        let or = Oracle::new(&probe);
+                        for &t1 in ts.iter().take(3) {
+                            for &b1 in &[1usize, 2, 3, 5, 256] {
+                                for &b2 in &[1usize, 2, 3, 5, 256] {
+                                    if b1 == b2 {
+                                        continue;
+                                    }
+                                    for arm in cfgs::FORCED {
+                                        for k in 0..=6usize {
+                                            let cfg = Config {
+                                                seq: seq.clone(),
+                                                matrix: matrix.clone(),
+                                                threshold: t1,
+                                                block: b1,
+                                                arm,
+                                                origin: format!("reblock L={} content={} M={} matrix#{} wild={}", l, pat, m, mi, wild),
+                                                pre_wrap: None,
+                                                exact: false,
+                                                spare: 0,
+                                            };
+                                            sink.rep.eval_distinct(!or.exact.is_empty());
+                                            sink.states += 1;
+                                            let js = |cfg: &Config| {
+                                                let mut j = cfg.json();
+                                                j["kind"] = json!("reblock");
+                                                j["k"] = json!(k);
+                                                j["block2"] = json!(b2);
+                                                j
+                                            };
+                                            match run_scanner(&cfg, &After::Reblock(k, b2)) {
+                                                Err(p) => sink.rep.violation(format!("C02 {} reblock panic {}", cfgs::arm_name(arm), vx_core::util::panic_class(&p)), format!("panic: {}", p), || js(&cfg)),
+                                                Ok(mut out) => {
+                                                    sink.transitions += out.calls as u64;
+                                                    let post = std::mem::take(&mut out.post);
+                                                    out.hits.extend(post);
+                                                    if let Err((sig, msg)) = judge_hits(&cfg, &or, &out) {
+                                                        sink.rep.violation(format!("C02 {} reblock {}", cfgs::arm_name(arm), sig), format!("{} [block size {} -> {} after {} hit(s)]", msg, b1, b2, k), || js(&cfg));
+                                                    }
+                                                }
+                                            }
+                                        }
+                                    }
+                                }
+                            }
+                        }
+                    }
+                }
+            }
+        }
+    }
     // ---- (iii) more than 65536 sequence rows: 16-bit row counters of the 8-bit kernels ----------
     if ctx.wants("huge") {
         sink.rep.space(
@@ -899,6 +992,21 @@ pub fn replay_c02(_ctx: &mut Ctx, rep: &mut Report, v: &Value) {
             Ok(out) => {
                 if let Err((sig, msg)) = judge_rethreshold(&cfg, &or, &out, k, t2) {
                     rep.violation(format!("C02 {} rethreshold {}", cfgs::arm_name(cfg.arm), sig), msg, || cfg.json());
+                }
+            }
+        }
+        return;
+    }
+    if v["kind"].as_str() == Some("reblock") {
+        let k = v["k"].as_u64().unwrap() as usize;
+        let b2 = v["block2"].as_u64().unwrap() as usize;
+        match run_scanner(&cfg, &After::Reblock(k, b2)) {
+            Err(p) => rep.violation(format!("C02 {} reblock panic {}", cfgs::arm_name(cfg.arm), vx_core::util::panic_class(&p)), format!("panic: {}", p), || cfg.json()),
+            Ok(mut out) => {
+                let post = std::mem::take(&mut out.post);
+                out.hits.extend(post);
+                if let Err((sig, msg)) = judge_hits(&cfg, &or, &out) {
+                    rep.violation(format!("C02 {} reblock {}", cfgs::arm_name(cfg.arm), sig), msg, || cfg.json());
                 }
             }
         }
